@@ -1,4 +1,4 @@
-(* C07 - record time = replay time, unbounded, for the filter options -F / -N / -D on the -pg shape:
+(* C07 - record time = replay time, unbounded, for the options -F / -N / -D / -t on the -pg shape:
    the libmcount automaton (UV.Mcount.Model, lazy ENTRY flush included) writes exactly the recording of
    the selected forest [sel]; replaying it without options shows what replaying the full recording
    with the options shows. *)
@@ -14,23 +14,42 @@ Definition filter_only_trig (q : rtrig) : Prop :=
   q_depth q = None /\ q_time q = None /\ q_trace_on q = false /\ q_trace_off q = false /\ q_trace q = false
   /\ q_caller q = false /\ q_hide q = false.
 Definition filter_only (c : cfg) : Prop :=
-  (forall f, filter_only_trig (trig_of c f)) /\ caller_filter c = false /\ threshold c = 0%N
-  /\ 1 <= gdepth c.
+  (forall f, filter_only_trig (trig_of c f)) /\ caller_filter c = false /\ 1 <= gdepth c.
 
-Fixpoint wf_call (n : call) : Prop :=
+(* every call takes time, lies inside its caller's interval, and none runs exactly the threshold T
+   (there record time keeps `>` and replay time drops `<`: C07_threshold_boundary_refuted) *)
+Fixpoint wf_call (T : N) (n : call) : Prop :=
   match n with
-  | Call _ t0 t1 ks => (t0 < t1)%N /\ (t1 < two64)%N /\ (fix go (l : list call) : Prop :=
-                                                       match l with [] => True | x :: r => wf_call x /\ go r end) ks
+  | Call _ t0 t1 ks =>
+      (t0 < t1)%N /\ (t1 < two64)%N /\ tdelta t1 t0 <> T /\
+      (fix go (l : list call) : Prop :=
+         match l with
+         | [] => True
+         | x :: r => (wf_call T x /\ (t0 <= c_t0 x)%N /\ (c_t1 x <= t1)%N) /\ go r
+         end) ks
   end.
-Definition wf_forest (f : list call) : Prop := Forall wf_call f.
-Lemma wf_kids f t0 t1 ks : wf_call (Call f t0 t1 ks) -> (t0 < t1)%N /\ (t1 < two64)%N /\ Forall wf_call ks.
+Definition wf_forest (c : cfg) (f : list call) : Prop := Forall (wf_call (threshold c)) f.
+Lemma wf_kids T f t0 t1 ks : wf_call T (Call f t0 t1 ks) ->
+  (t0 < t1)%N /\ (t1 < two64)%N /\ tdelta t1 t0 <> T /\ Forall (wf_call T) ks
+  /\ Forall (fun k => (t0 <= c_t0 k)%N /\ (c_t1 k <= t1)%N) ks.
 Proof.
-  cbn [wf_call]. intros (A & B & C). repeat split; auto.
-  induction ks as [|k ks IH]; constructor; [apply C|apply IH; apply C].
+  cbn [wf_call]. intros (A & B & C & D). repeat split; auto.
+  - induction ks as [|k ks IH]; constructor; [apply D|apply IH; apply D].
+  - induction ks as [|k ks IH]; constructor; [split; apply D|apply IH; apply D].
+Qed.
+Lemma tdelta_sub t0 t1 : (t0 <= t1)%N -> (t1 < two64)%N -> tdelta t1 t0 = (t1 - t0)%N.
+Proof.
+  intros A B. unfold tdelta, two64 in *.
+  replace (t1 + 18446744073709551616 - t0)%N with ((t1 - t0) + 1 * 18446744073709551616)%N by lia.
+  rewrite N.mod_add by lia. apply N.mod_small. lia.
 Qed.
 
 Fixpoint height (n : call) : nat := match n with Call _ _ _ ks => S (fold_right Nat.max 0%nat (map height ks)) end.
 Definition fheight (l : list call) : nat := fold_right Nat.max 0%nat (map height l).
+
+(* a recorded call is written when a call below it was written or it ran longer than the threshold *)
+Definition keep (c : cfg) (t0 t1 : N) (gk : list call) : bool :=
+  negb (is_nil gk) || (threshold c <? tdelta t1 t0)%N.
 
 (* the forest that is recorded: inF = inside an -F function, lv = levels used since the last reset *)
 Fixpoint sel (c : cfg) (inF : bool) (lv : N) (n : call) : list call :=
@@ -38,11 +57,12 @@ Fixpoint sel (c : cfg) (inF : bool) (lv : N) (n : call) : list call :=
   | Call f t0 t1 ks =>
       match q_filter (trig_of c f) with
       | Some false => []
-      | Some true => [Call f t0 t1 (flat_map (sel c true 1) ks)]
+      | Some true =>
+          let gk := flat_map (sel c true 1) ks in if keep c t0 t1 gk then [Call f t0 t1 gk] else []
       | None =>
           if fmode_in c && negb inF then flat_map (sel c false lv) ks
           else if (Z.to_N (gdepth c) <=? lv)%N then flat_map (sel c inF lv) ks
-          else [Call f t0 t1 (flat_map (sel c inF (lv + 1)) ks)]
+          else let gk := flat_map (sel c inF (lv + 1)) ks in if keep c t0 t1 gk then [Call f t0 t1 gk] else []
       end
   end.
 
@@ -145,7 +165,7 @@ Section Rec.
     = (mk i 1 1 (Fr false true true false f t 0 ri dp :: stk) ri ou, true :: hk).
   Proof.
     intros Htr Hl. assert (Hidx : (1024 <=? N.of_nat (length stk))%N = false) by lia.
-    destruct Hfo as (_ & _ & _ & Hgd).
+    destruct Hfo as (_ & _ & Hgd).
     assert (Hg : (Z.to_N (gdepth c) <=? 0)%N = false) by lia.
     mstep. rewrite Hidx. cbn. rewrite Htr. cbn. rewrite Hg. cbn. reflexivity.
   Qed.
@@ -155,7 +175,7 @@ Section Rec.
     = (mk (i + 1) 0 1 (Fr true false false false f t 0 ri dp :: stk) (ri + 1) ou, true :: hk).
   Proof.
     intros Htr Hl Hi. assert (Hidx : (1024 <=? N.of_nat (length stk))%N = false) by lia.
-    destruct Hfo as (_ & _ & _ & Hgd).
+    destruct Hfo as (_ & _ & Hgd).
     assert (Hg : (Z.to_N (gdepth c) <=? 0)%N = false) by lia.
     assert (Hi1 : (i + 1 =? 0) = false) by lia.
     mstep. rewrite Hidx. cbn. rewrite Htr. cbn. rewrite Hg. cbn. rewrite Hi1. cbn. rewrite ?andb_false_r. reflexivity.
@@ -190,23 +210,21 @@ Section Rec.
 
   Lemma leave_rec (flt wr : bool) f t0 t1 i dp0 dp stk ri ou hk : (t0 < t1)%N -> (t1 < two64)%N ->
     MC.dstep mc (mk i 0 dp0 (Fr flt false false wr f t0 0 ri dp :: stk) (ri + 1) ou, true :: hk) (MC.Leave t1)
-    = (mk (if flt then i - 1 else i) 0 dp (if wr then stk else markw stk) ri
-          (ou ++ (if wr then [] else pend stk ++ [mflat_rec false ri t0 f]) ++ [mflat_rec true ri t1 f]), hk).
+    = (if wr || (threshold c <? tdelta t1 t0)%N
+       then mk (if flt then i - 1 else i) 0 dp (if wr then stk else markw stk) ri
+               (ou ++ (if wr then [] else pend stk ++ [mflat_rec false ri t0 f]) ++ [mflat_rec true ri t1 f])
+       else mk (if flt then i - 1 else i) 0 dp stk ri ou, hk).
   Proof.
-    intros H01 H1. destruct Hfo as (_ & Hcl & Hthr & _). unfold two64 in H1.
-    assert (Hdur : (0 <? (t1 + 18446744073709551616 - t0) mod 18446744073709551616)%N = true).
-    { assert (E : ((t1 + 18446744073709551616 - t0) mod 18446744073709551616 = t1 - t0)%N).
-      { replace (t1 + 18446744073709551616 - t0)%N with ((t1 - t0) + 1 * 18446744073709551616)%N by lia.
-        rewrite N.mod_add by lia. apply N.mod_small. lia. }
-      rewrite E. lia. }
+    intros H01 H1. destruct Hfo as (_ & Hcl & _). unfold two64 in H1. unfold tdelta, two64.
     assert (Hri : (if (0 <? ri + 1)%N then (ri + 1 - 1)%N else 0%N) = ri) by (destruct (0 <? ri + 1)%N eqn:E; lia).
     assert (Ht1 : (t1 =? 0)%N = false) by lia.
-    mstep. cbn -[N.modulo N.add N.sub N.ltb MC.flush_anc]. rewrite Hthr, Hcl. cbn -[N.modulo N.add N.sub N.ltb MC.flush_anc].
-    rewrite Hdur, Hri. cbn -[MC.flush_anc].
-    unfold MC.record_trace_data. cbn -[MC.flush_anc].
-    destruct wr; cbn -[MC.flush_anc].
-    - rewrite Ht1. destruct flt; reflexivity.
-    - unfold markw, pend. destruct (MC.flush_anc stk) as [anc' pre]. cbn. rewrite Ht1.
+    mstep. cbn -[N.modulo N.add N.sub N.ltb MC.flush_anc]. rewrite Hcl. cbn -[N.modulo N.add N.sub N.ltb MC.flush_anc].
+    rewrite Hri.
+    destruct (threshold c <? (t1 + 18446744073709551616 - t0) mod 18446744073709551616)%N eqn:EL;
+      cbn -[N.modulo N.add N.sub N.ltb MC.flush_anc]; unfold MC.record_trace_data; cbn -[MC.flush_anc];
+      destruct wr; cbn -[MC.flush_anc]; rewrite ?Ht1;
+      try (destruct flt; reflexivity);
+      unfold markw, pend; destruct (MC.flush_anc stk) as [anc' pre]; cbn; rewrite ?Ht1;
       destruct flt; cbn; rewrite <- ?app_assoc; reflexivity.
   Qed.
 
@@ -240,11 +258,11 @@ Section Rec.
   Proof. unfold sel_at. destruct (o >? 0); [reflexivity|]. cbn [flat_map]. rewrite app_nil_r. reflexivity. Qed.
 
   Definition rec_call_stmt (n : call) : Prop := forall i o dp stk ri ou hk,
-    0 <= i -> 0 <= o -> (length stk + height n <= 1024)%nat -> wf_call n ->
+    0 <= i -> 0 <= o -> (length stk + height n <= 1024)%nat -> wf_call (threshold c) n ->
     MC.exec mc (events n) (mk i o dp stk ri ou, hk) = (after (sel_at c i o dp [n]) i o dp stk ri ou, hk).
 
   Lemma rec_kids ks : Forall rec_call_stmt ks -> forall i o dp stk ri ou hk,
-    0 <= i -> 0 <= o -> (length stk + fheight ks <= 1024)%nat -> Forall wf_call ks ->
+    0 <= i -> 0 <= o -> (length stk + fheight ks <= 1024)%nat -> Forall (wf_call (threshold c)) ks ->
     MC.exec mc (flat_map events ks) (mk i o dp stk ri ou, hk) = (after (sel_at c i o dp ks) i o dp stk ri ou, hk).
   Proof.
     induction 1 as [|k ks Hk _ IH]; intros i o dp stk ri ou hk Hi Ho Hlen Hwf.
@@ -263,7 +281,7 @@ Section Rec.
   Proof.
     induction n as [f t0 t1 ks IH] using call_ind'. intros i o dp stk ri ou hk Hi Ho Hlen Hwf.
     pose proof (rec_kids ks IH) as HK.
-    apply wf_kids in Hwf. destruct Hwf as (H01 & H1 & Hwk).
+    apply wf_kids in Hwf. destruct Hwf as (H01 & H1 & _ & Hwk & _).
     assert (Hl : (length stk < 1024)%nat) by (cbn [height] in Hlen; lia).
     assert (Hlk0 : (length stk + fheight ks <= 1024)%nat) by (cbn [height] in Hlen; unfold fheight; lia).
     assert (Hlk1 : forall F, (length (F :: stk) + fheight ks <= 1024)%nat)
@@ -284,11 +302,14 @@ Section Rec.
         replace (0 <? i + 1) with true by lia.
         destruct (flat_map (sel c true 1) ks) as [|x g'] eqn:Eg.
         * cbn [after]. cbn [MC.exec fold_left]. rewrite (leave_rec true false f t0 t1 (i + 1) 1%N dp stk ri ou hk H01 H1).
-          rewrite Z.add_simpl_r. cbn [after flat_map mflat]. unfold mk. rewrite app_nil_r.
+          unfold keep. cbn [is_nil negb orb]. rewrite Z.add_simpl_r.
+          destruct (threshold c <? tdelta t1 t0)%N; [|reflexivity].
+          cbn [after flat_map mflat]. unfold mk. rewrite app_nil_r.
           rewrite <- ?app_assoc. reflexivity.
         * cbn [after]. destruct (markw_cons true f t0 ri dp stk) as [M P]. rewrite M, P.
           cbn [MC.exec fold_left].
           rewrite (leave_rec true true f t0 t1 (i + 1) 1%N dp (markw stk) ri _ hk H01 H1).
+          unfold keep. cbn [is_nil negb orb].
           rewrite Z.add_simpl_r. cbn [after flat_map mflat]. unfold mk. rewrite app_nil_r.
           cbn [app]. rewrite <- ?app_assoc. cbn [app]. reflexivity.
       + (* -N *)
@@ -319,17 +340,20 @@ Section Rec.
              destruct (flat_map (sel c (0 <? i) (dp + 1)) ks) as [|x g'] eqn:Eg.
              ++ cbn [after]. cbn [MC.exec fold_left].
                 rewrite (leave_rec false false f t0 t1 i (dp + 1)%N dp stk ri ou hk H01 H1).
+                unfold keep. cbn [is_nil negb orb].
+                destruct (threshold c <? tdelta t1 t0)%N; [|reflexivity].
                 cbn [after flat_map mflat]. unfold mk. rewrite app_nil_r. rewrite <- ?app_assoc. reflexivity.
              ++ cbn [after]. destruct (markw_cons false f t0 ri dp stk) as [M P]. rewrite M, P.
                 cbn [MC.exec fold_left].
                 rewrite (leave_rec false true f t0 t1 i (dp + 1)%N dp (markw stk) ri _ hk H01 H1).
+                unfold keep. cbn [is_nil negb orb].
                 cbn [after flat_map mflat]. unfold mk. rewrite app_nil_r.
                 cbn [app]. rewrite <- ?app_assoc. cbn [app]. reflexivity.
   Qed.
 End Rec.
 
 (* ------------------------------------------------------------------ what libmcount writes *)
-Lemma record_is_sel c f : filter_only c -> wf_forest f -> (fheight f <= 1024)%nat ->
+Lemma record_is_sel c f : filter_only c -> wf_forest c f -> (fheight f <= 1024)%nat ->
   record (to_mcfg c MC.PG) f = flats 0 (flat_map (sel c false 0) f).
 Proof.
   intros Hfo Hwf Hh. unfold record.
@@ -360,50 +384,93 @@ Proof.
   intros Ht Hc. induction f as [|n f IH]; [reflexivity|]. cbn [flat_map]. rewrite (tprune_id c Ht Hc n), IH. reflexivity.
 Qed.
 
+Lemma flat_map_nil {A B} (g : A -> list B) l : Forall (fun x => g x = []) l -> flat_map g l = [].
+Proof. induction 1 as [|x l Hx _ IH]; [reflexivity|]. cbn [flat_map]. rewrite Hx, IH. reflexivity. Qed.
+
+(* a call shorter than the threshold disappears with everything below it, at both times *)
+Lemma short_gone c : filter_only c -> forall n, wf_call (threshold c) n ->
+  (tdelta (c_t1 n) (c_t0 n) < threshold c)%N ->
+  tprune c (threshold c) n = [] /\ forall inF lv, sel c inF lv n = [].
+Proof.
+  intros (Htr & Hcl & _). induction n as [f t0 t1 ks IH] using call_ind'. intros Hwf Hs.
+  apply wf_kids in Hwf. destruct Hwf as (H01 & H1 & _ & Hwk & Hin). cbn [c_t0 c_t1] in Hs.
+  rewrite (tdelta_sub t0 t1) in Hs by lia.
+  assert (K : Forall (fun k => tprune c (threshold c) k = [] /\ forall inF lv, sel c inF lv k = []) ks).
+  { rewrite Forall_forall in *. intros k Hk. apply (IH k Hk (Hwk k Hk)).
+    specialize (Hwk k Hk). specialize (Hin k Hk). destruct k as [fk a b kk]. cbn [c_t0 c_t1] in *.
+    apply wf_kids in Hwk. destruct Hwk as (A & B & _). rewrite (tdelta_sub a b) by lia. lia. }
+  destruct (Htr f) as (Q1 & Q2 & Q3 & Q4 & Q5 & Q6 & Q7).
+  assert (Ks : forall inF lv, flat_map (sel c inF lv) ks = []).
+  { intros inF lv. apply flat_map_nil. eapply Forall_impl; [|exact K]. cbn. intros k [_ H]. apply H. }
+  split.
+  - cbn [tprune]. rewrite Q2, Q5, Hcl.
+    rewrite (flat_map_nil (tprune c (threshold c)) ks) by (eapply Forall_impl; [|exact K]; cbn; intros k [H _]; exact H).
+    rewrite (tdelta_sub t0 t1) by lia. replace (t1 - t0 <? threshold c)%N with true by lia. reflexivity.
+  - intros inF lv. cbn [sel]. rewrite !Ks. unfold keep. cbn [is_nil negb orb].
+    rewrite (tdelta_sub t0 t1) by lia. replace (threshold c <? t1 - t0)%N with false by lia.
+    destruct (q_filter (trig_of c f)) as [[|]|]; try reflexivity.
+    destruct (fmode_in c && negb inF); [reflexivity|]. destruct (Z.to_N (gdepth c) <=? lv)%N; reflexivity.
+Qed.
+
+Lemma long_kept c : filter_only c -> forall f t0 t1 ks, (t0 < t1)%N -> (t1 < two64)%N ->
+  (threshold c < tdelta t1 t0)%N ->
+  tprune c (threshold c) (Call f t0 t1 ks) = [Call f t0 t1 (flat_map (tprune c (threshold c)) ks)].
+Proof.
+  intros (Htr & Hcl & _) f t0 t1 ks H01 H1 Hl. destruct (Htr f) as (Q1 & Q2 & Q3 & Q4 & Q5 & Q6 & Q7).
+  cbn [tprune]. rewrite Q2, Hcl. replace (tdelta t1 t0 <? threshold c)%N with false by lia. reflexivity.
+Qed.
+
 Definition vis_sel_stmt (c : cfg) (n : call) : Prop :=
-  forall inF lv d rd rd' b, Z.of_nat (height n) <= b ->
-    map strip (vis c inF (gdepth c - Z.of_N lv) d rd n)
+  forall inF lv d rd rd' b, Z.of_nat (height n) <= b -> wf_call (threshold c) n ->
+    map strip (flat_map (vis c inF (gdepth c - Z.of_N lv) d rd) (tprune c (threshold c) n))
     = map strip (flat_map (vis plain false b d rd') (sel c inF lv n)).
 
 Lemma vis_sel_kids c ks : Forall (vis_sel_stmt c) ks ->
-  forall inF lv d rd rd' b, Z.of_nat (fheight ks) <= b ->
-    map strip (flat_map (vis c inF (gdepth c - Z.of_N lv) d rd) ks)
+  forall inF lv d rd rd' b, Z.of_nat (fheight ks) <= b -> Forall (wf_call (threshold c)) ks ->
+    map strip (flat_map (vis c inF (gdepth c - Z.of_N lv) d rd) (flat_map (tprune c (threshold c)) ks))
     = map strip (flat_map (vis plain false b d rd') (flat_map (sel c inF lv) ks)).
 Proof.
-  induction 1 as [|k ks Hk _ IH]; intros inF lv d rd rd' b Hb; [reflexivity|].
+  induction 1 as [|k ks Hk _ IH]; intros inF lv d rd rd' b Hb Hwf; [reflexivity|].
+  inversion Hwf as [|? ? Hwk Hwks]; subst.
   unfold fheight in Hb. cbn [map fold_right] in Hb.
-  cbn [flat_map]. rewrite flat_map_app, !map_app. rewrite (Hk inF lv d rd rd' b) by lia.
-  rewrite (IH inF lv d rd rd' b) by (unfold fheight; lia). reflexivity.
+  cbn [flat_map]. rewrite !flat_map_app, !map_app. rewrite (Hk inF lv d rd rd' b) by (auto; lia).
+  rewrite (IH inF lv d rd rd' b) by (auto; unfold fheight; lia). reflexivity.
 Qed.
 
 Lemma vis_sel c : filter_only c -> plt_free_all c -> forall n, vis_sel_stmt c n.
 Proof.
-  intros (Htr & _ & _ & Hgd) Hp. induction n as [f t0 t1 ks IH] using call_ind'.
-  intros inF lv d rd rd' b Hb. pose proof (vis_sel_kids c ks IH) as HK.
+  intros Hfo Hp. pose proof Hfo as (Htr & _ & Hgd). induction n as [f t0 t1 ks IH] using call_ind'.
+  intros inF lv d rd rd' b Hb Hwf. pose proof (vis_sel_kids c ks IH) as HK.
+  pose proof Hwf as Hwf0. apply wf_kids in Hwf. destruct Hwf as (H01 & H1 & Hne & Hwk & _).
+  assert (Hcase : (tdelta t1 t0 < threshold c)%N \/ (threshold c < tdelta t1 t0)%N) by lia.
+  destruct Hcase as [Hs|Hl].
+  { destruct (short_gone c Hfo _ Hwf0 Hs) as [E1 E2]. rewrite E1, E2. reflexivity. }
+  rewrite (long_kept c Hfo f t0 t1 ks H01 H1 Hl).
   cbn [height] in Hb. fold (fheight ks) in Hb.
   destruct (Htr f) as (Q1 & Q2 & Q3 & Q4 & Q5 & Q6 & Q7).
-  cbn [vis sel]. rewrite Q1, Q7, (Hp f).
+  cbn [flat_map vis sel]. rewrite app_nil_r. rewrite Q1, Q7, (Hp f).
+  unfold keep. replace (threshold c <? tdelta t1 t0)%N with true by lia. rewrite !orb_true_r.
   destruct (q_filter (trig_of c f)) as [[|]|] eqn:Ef.
   - (* -F *)
-    cbn [negb andb orb]. rewrite orb_true_r. replace (gdepth c <=? 0) with false by lia. cbn [orb].
+    cbn [negb andb orb]. replace (gdepth c <=? 0) with false by lia. cbn [orb].
     cbn [flat_map vis]. rewrite app_nil_r. cbn [plain trig_of notrig q_filter q_depth q_hide fmode_in negb andb orb gdepth].
     replace (b <=? 0) with false by lia. cbn [orb]. unfold hidden_plt at 1. cbn [plain libcall negb andb].
     cbn [map]. rewrite !map_app. cbn [map strip v_exit v_fn v_disp v_time]. f_equal. f_equal.
     replace (gdepth c - 1) with (gdepth c - Z.of_N 1) by lia.
-    apply HK. lia.
+    apply HK; [lia|assumption].
   - reflexivity.
-  - cbn [negb andb orb]. rewrite !orb_false_r.
+  - cbn [negb andb orb]. rewrite ?orb_false_r.
     destruct (fmode_in c && negb inF) eqn:Em.
-    + apply HK. lia.
+    + apply HK; [lia|assumption].
     + replace (gdepth c - Z.of_N lv <=? 0) with (Z.to_N (gdepth c) <=? lv)%N by lia.
       destruct (Z.to_N (gdepth c) <=? lv)%N eqn:Ed; cbn [orb].
-      * apply HK. lia.
+      * apply HK; [lia|assumption].
       * cbn [flat_map vis]. rewrite app_nil_r.
         cbn [plain trig_of notrig q_filter q_depth q_hide fmode_in negb andb orb gdepth].
         replace (b <=? 0) with false by lia. cbn [orb]. unfold hidden_plt at 1. cbn [plain libcall negb andb].
         cbn [map]. rewrite !map_app. cbn [map strip v_exit v_fn v_disp v_time]. f_equal. f_equal.
         replace (gdepth c - Z.of_N lv - 1) with (gdepth c - Z.of_N (lv + 1)) by lia.
-        apply HK. lia.
+        apply HK; [lia|assumption].
 Qed.
 
 Lemma sel_height c : forall n inF lv, (fheight (sel c inF lv n) <= height n)%nat.
@@ -418,34 +485,35 @@ Proof.
     rewrite G. lia. }
   cbn [sel height]. fold (fheight ks).
   destruct (q_filter (trig_of c f)) as [[|]|].
-  - unfold fheight at 1. cbn [map fold_right height]. fold (fheight (flat_map (sel c true 1) ks)). specialize (K true 1%N). lia.
+  - destruct (keep c t0 t1 _); [|cbn; lia].
+    unfold fheight at 1. cbn [map fold_right height]. fold (fheight (flat_map (sel c true 1) ks)). specialize (K true 1%N). lia.
   - cbn. lia.
   - destruct (fmode_in c && negb inF); [specialize (K false lv); lia|].
     destruct (Z.to_N (gdepth c) <=? lv)%N; [specialize (K inF lv); lia|].
+    destruct (keep c t0 t1 _); [|cbn; lia].
     unfold fheight at 1. cbn [map fold_right height]. fold (fheight (flat_map (sel c inF (lv + 1)) ks)).
     specialize (K inF (lv + 1)%N). lia.
 Qed.
 
 Theorem record_equals_replay_filters c f :
-  filter_only c -> plt_free_all c -> no_range c = true -> wf_forest f -> (fheight f <= 1024)%nat ->
+  filter_only c -> plt_free_all c -> no_range c = true -> wf_forest c f -> (fheight f <= 1024)%nat ->
   map strip (rec_then_plain c MC.PG f) = map strip (plain_then_opt c f).
 Proof.
-  intros Hfo Hp Hr Hwf Hh. pose proof Hfo as (Htr & Hcl & Hthr & Hgd).
+  intros Hfo Hp Hr Hwf Hh. pose proof Hfo as (Htr & Hcl & Hgd).
   assert (Hns : no_switch_all c) by (intro k; destruct (Htr k) as (_ & _ & A & B & _); split; assumption).
   unfold rec_then_plain, plain_then_opt.
   rewrite (record_is_sel c f Hfo Hwf Hh).
   rewrite (std_matches_select plain) by (try reflexivity; intro k; split; reflexivity).
   rewrite (std_matches_select c f Hns Hr).
-  unfold select. rewrite Hthr. cbn [plain threshold].
-  rewrite (tprune_forest_id c f) by (auto; intro k; apply (Htr k)).
+  unfold select. cbn [plain threshold].
   rewrite (tprune_forest_id plain) by (auto; intro k; reflexivity).
   cbn [plain gdepth].
   assert (Hall : Forall (vis_sel_stmt c) f) by (apply Forall_forall; intros n _; apply vis_sel; assumption).
   pose proof (vis_sel_kids c f Hall false 0%N 0 0 0 1024) as E.
-  replace (gdepth c - Z.of_N 0) with (gdepth c) in E by lia. symmetry. apply E. lia.
+  replace (gdepth c - Z.of_N 0) with (gdepth c) in E by lia. symmetry. apply E; [lia|exact Hwf].
 Qed.
 
-(* the hypotheses are satisfiable: -F alpha -N beta -D 2 *)
+(* the hypotheses are satisfiable: -F alpha -N beta -D 2 -t 150 *)
 Lemma assoc_filter_only tr : Forall (fun p => filter_only_trig (snd p)) tr ->
   forall f, filter_only_trig (assoc notrig tr f).
 Proof.
@@ -453,13 +521,18 @@ Proof.
   - unfold filter_only_trig. cbn. repeat split; reflexivity.
   - destruct (f =? k)%N; [exact Hv|apply IH].
 Qed.
-Example hyps_filter_only :
-  filter_only (mkcfg [(1%N, ftrig (Some true)); (2%N, ftrig (Some false))] true false 2 0 0 0 [] true false)
-  /\ wf_forest [Call 0 1000 2000 [Call 1 1100 1500 [Call 2 1200 1400 []]]].
+Definition c_ex : cfg := mkcfg [(1%N, ftrig (Some true)); (2%N, ftrig (Some false))] true false 2 150 0 0 [] true false.
+Definition f_ex : list call :=
+  [Call 0 1000 2000 [Call 1 1100 1500 [Call 2 1200 1400 []; Call 3 1410 1420 []]; Call 1 1600 1700 []]].
+Example hyps_filter_only : filter_only c_ex /\ wf_forest c_ex f_ex.
 Proof.
   split.
-  - unfold filter_only, mkcfg. cbn [trig_of caller_filter threshold gdepth].
+  - unfold filter_only, c_ex, mkcfg. cbn [trig_of caller_filter threshold gdepth].
     split; [|repeat split; lia].
     apply assoc_filter_only. repeat constructor.
-  - unfold wf_forest. repeat constructor; cbn; unfold two64; lia.
+  - unfold wf_forest, c_ex, f_ex, mkcfg. cbn [threshold]. repeat constructor; cbn; unfold two64; try lia.
+    all: vm_compute; congruence.
 Qed.
+Example ex_filter_only_shows :
+  map strip (plain_then_opt c_ex f_ex) = [(false, 1%N, 0, 1100%N); (true, 1%N, 0, 1500%N)].
+Proof. vm_compute. reflexivity. Qed.
